@@ -34,7 +34,24 @@ func EarlierPositions(t *rapid.T, fen string, start bool, moves []string) []stri
 		return nil
 	}
 	for ; n > 0; n-- {
-		switch draw(t, 0, 7, "earlierKind") {
+		switch draw(t, 0, 9, "earlierKind") {
+		case 8: // part of the judged game, then another position: the driver must forget the first when it sees the second
+			k := 0
+			if len(moves) > 0 {
+				k = draw(t, 1, len(moves), "sandwichPrefix")
+			}
+			other := "position startpos"
+			if start || chance(t, 1, 2, "sandwichFEN") {
+				r, _ := Root(t)
+				other = "position fen " + r.FEN()
+			}
+			out = append(out, with(base, moves[:k]), other)
+		case 9: // part of the judged game, then back to its base without moves (take back to the root, new game from it)
+			k := 0
+			if len(moves) > 0 {
+				k = draw(t, 1, len(moves), "backPrefix")
+			}
+			out = append(out, with(base, moves[:k]), base)
 		case 0:
 			out = append(out, base)
 		case 1:
